@@ -81,7 +81,13 @@ def random_value(typ: str, rnd: random.Random, cals, year0: float = 0.08):
 
     def nod():
         c = rnd.random()
-        return rnd.randrange(86400) * 10**9 if c < 0.4 else rnd.choice([0, NPD - 1, rnd.randrange(NPD), rnd.randrange(86400) * 10**9 + 120_000_000])
+        if c < 0.4:
+            return rnd.randrange(86400) * 10**9
+        if c < 0.65:
+            # a fraction with exactly k significant digits (each parse width scales differently)
+            k = rnd.randint(1, 9)
+            return rnd.randrange(86400) * 10**9 + rnd.randrange(10**k) * 10 ** (9 - k)
+        return rnd.choice([0, NPD - 1, rnd.randrange(NPD), rnd.randrange(86400) * 10**9 + 120_000_000])
 
     if typ == "Offset":
         return Offset.from_seconds(rnd.choice([0, 3600, -3600, 19800, 64800, -64800, 1, -1, 59, -3599, rnd.randint(-64800, 64800)]))
@@ -105,7 +111,8 @@ def random_value(typ: str, rnd: random.Random, cals, year0: float = 0.08):
         return Instant._ctor(days=day, nano_of_day=nod())
     if typ == "Duration":
         c = rnd.random()
-        ns = rnd.choice([0, 1, -1, NPD, -NPD, NPD - 1, -NPD + 1, 3600 * 10**9, -1000]) if c < 0.3 else rnd.randint(-10**16, 10**16) if c < 0.8 else \
+        ns = rnd.choice([0, 1, -1, NPD, -NPD, NPD - 1, -NPD + 1, 3600 * 10**9, -1000]) if c < 0.3 else rnd.randint(-10**16, 10**16) if c < 0.6 else \
+            rnd.choice([-1, 1]) * (rnd.randrange(10**7) * 10**9 + rnd.randrange(10 ** (k := rnd.randint(1, 9))) * 10 ** (9 - k)) if c < 0.8 else \
             rnd.randint(Duration._MIN_NANOSECONDS, Duration._MAX_NANOSECONDS)
         return Duration._ctor(days=ns // NPD, nano_of_day=ns % NPD)
     if typ == "AnnualDate":
